@@ -16,6 +16,14 @@
     desc.acyclic1 <triples>                 → true/false (C17.Acyclic1), then the two finding predicates
     desc.shared   <opts> <quads>            → true/false (C17.NoSharedAnonymized)
     desc.list     <P> <terms>               → statement tree `|` its flattening under subject `<urn:s>`
+  The same for the export after patch fix-c17-export-cycles (model functions …V); `<hint>` is a list of
+  subject terms: the second loop of ExportResources iterates `hint ++ (the other subjects)` (the harness
+  passes the once-referenced blank-node subjects the Go run exported as resources, in Go's order; the
+  first loop's order does not influence the result beyond the order of the resources):
+    desc.exportv   <opts> <hint> <triples>      desc.flattenv <opts> <hint> <triples>
+    desc.exportonev <opts> <subject> <triples>
+    desc.dexportv  <opts> <ghint> <quads>       desc.dflattenv <opts> <ghint> <quads>
+  with `<ghint>` a list of `G>S` pairs (graph-name token or `-`, then the subject token).
   Export uses insertion order as iteration order and fuel `|T|+1`; the harness sorts what came out of a
   Go map. Resource syntax:  S(term){stmts}  A{stmts}  N{stmts};  stmt: o(P,term)  a(P){stmts}; stmts
   joined by `,`. Fresh blank nodes print as `F<n>`.
@@ -102,6 +110,27 @@ def dgroups : List (DResource L) → Nat → List (List (DQuad (BN L)))
 
 def b2s (b : Bool) : String := if b then "true" else "false"
 
+def parseTerms (s : String) : Option (List (Term L)) :=
+  (splitList s).mapM (fun x => do let t ← (← parseTerm x); pure t)
+
+/-- iteration order of the second loop: the hinted subjects first -/
+def ord2Of (hint subjects : List (Term L)) : List (Term L) :=
+  hint.filter (fun s => subjects.contains s) ++ subjects.filter (fun s => !hint.contains s)
+
+def parseGHint (s : String) : Option (List (Option (Term L) × Term L)) :=
+  (splitList s).mapM (fun x =>
+    match x.splitOn ">" with
+    | [g, t] => do
+      let g ← parseTerm g
+      let t ← (← parseTerm t)
+      pure (g, t)
+    | _ => none)
+
+def dexportV (opts : Opts) (gh : List (Option (Term L) × Term L)) (Q : List (DQuad L)) : Option (List (DResource L)) :=
+  let D := dbuild Q
+  D.exportResourcesV opts D.graphNames (fun g => (D.builder g).subjects)
+    (fun g => ord2Of ((gh.filter (fun e => e.1 = g)).map (·.2)) (D.builder g).subjects) (Q.length + 1)
+
 def handle (op : String) (args : List String) : Option String :=
   match op, args with
   | "build", [ts] => do
@@ -144,6 +173,46 @@ def handle (op : String) (args : List String) : Option String :=
     let Q ← parseQuads qs
     let D := dbuild Q
     match D.exportResources opts D.graphNames (fun g => (D.builder g).subjects) (Q.length + 1) with
+    | some rs => pure ("ok:" ++ String.intercalate "|"
+        ((dgroups rs 0).map (fun g => String.intercalate ";" (g.map showQuadBN))))
+    | none => pure "diverges"
+  | "exportv", [o, h, ts] => do
+    let opts ← parseOpts o
+    let hint ← parseTerms h
+    let T ← parseTriples ts
+    let B := build T
+    match B.exportResourcesV opts B.subjects (ord2Of hint B.subjects) (T.length + 1) with
+    | some rs => pure ("ok:" ++ String.intercalate ";" (rs.map showResource))
+    | none => pure "diverges"
+  | "exportonev", [o, s, ts] => do
+    let opts ← parseOpts o
+    let s ← (← parseTerm s)
+    let T ← parseTriples ts
+    match (build T).exportResourceV1 opts (T.length + 1) s with
+    | some r => pure ("ok:" ++ showResource r)
+    | none => pure "diverges"
+  | "flattenv", [o, h, ts] => do
+    let opts ← parseOpts o
+    let hint ← parseTerms h
+    let T ← parseTriples ts
+    let B := build T
+    match B.exportResourcesV opts B.subjects (ord2Of hint B.subjects) (T.length + 1) with
+    | some rs => pure ("ok:" ++ String.intercalate "|"
+        ((groups rs 0).map (fun g => String.intercalate ";" (g.map showTripleBN))))
+    | none => pure "diverges"
+  | "dexportv", [o, h, qs] => do
+    let opts ← parseOpts o
+    let gh ← parseGHint h
+    let Q ← parseQuads qs
+    match dexportV opts gh Q with
+    | some rs => pure ("ok:" ++ String.intercalate ";"
+        (rs.map (fun e => showOptTerm e.1 ++ ">" ++ showResource e.2)))
+    | none => pure "diverges"
+  | "dflattenv", [o, h, qs] => do
+    let opts ← parseOpts o
+    let gh ← parseGHint h
+    let Q ← parseQuads qs
+    match dexportV opts gh Q with
     | some rs => pure ("ok:" ++ String.intercalate "|"
         ((dgroups rs 0).map (fun g => String.intercalate ";" (g.map showQuadBN))))
     | none => pure "diverges"
